@@ -14,6 +14,10 @@
        assignable types, …); it is *not* proved here that the builder establishes them (C05/C06).
   (ii) How diagnostic byte ranges are formed (`Rng`): node ranges, `end..end`, and the `s..e` span of
        `verify_callback_parameter_type`.
+  (ii') Positions produced by the parser adapter and consumed by `Vec::insert` / `Vec::remove` (implicit panic sites):
+       the clause loop of `SwitchStatement::with_cursor` (lib/src/qmlast/stmt.rs) over the child kinds of a switch body,
+       the `body_statements.insert(d.position, …)` of `walk_stmt` (lib/src/typedexpr.rs) and the
+       `case_body_start_refs.remove(p)` of `visit_switch_statement` (lib/src/tir/builder.rs).
   (iii) All functions are structurally recursive, except `runFrom` which recurses on the shrinking list
        of unvisited blocks (the interpreter's `visited_blocks` bitmap) — Lean's acceptance is the termination proof.
 -/
@@ -560,5 +564,75 @@ def callbackSpan (params : List Rng) (argumentsLen parameterCount : Nat) : Optio
   match params[argumentsLen]?, params[parameterCount - 1]? with
   | some a, some b => some (.span a b)
   | _, _ => none
+
+/-! ## positions handed from the parser adapter to `Vec::insert` / `Vec::remove` (switch clauses)
+
+The concrete syntax tree is abstracted to the KINDS of the named children of a `switch_body` node, in source order.
+Comments are *extras* of the grammar: they may appear anywhere among the clauses. -/
+
+inductive ClauseKind
+  | case          -- "switch_case"
+  | default       -- "switch_default"
+  | extra         -- node.is_extra(): a comment
+  | other         -- anything else (error recovery)
+  deriving DecidableEq, Repr
+
+inductive SwitchParseError | multipleDefaultLabels | unexpectedNodeKind
+  deriving DecidableEq, Repr
+
+/-- what `SwitchStatement { cases, default }` carries as far as indices are concerned:
+    `cases.len()` and `default.map(|d| d.position)` -/
+structure SwitchShape where
+  cases : Nat
+  defaultPos : Option Nat
+  deriving DecidableEq, Repr
+
+/-- the `match node.kind()` of the loop body; `i` is the `enumerate()` index -/
+def clauseLoop : List ClauseKind → Nat → SwitchShape → Except SwitchParseError SwitchShape
+  | [], _, s => .ok s
+  | .case :: rest, i, s => clauseLoop rest (i + 1) { s with cases := s.cases + 1 }
+  | .default :: rest, i, s =>
+    if s.defaultPos.isSome then .error .multipleDefaultLabels
+    else clauseLoop rest (i + 1) { s with defaultPos := some i }
+  | _ :: _, _, _ => .error .unexpectedNodeKind
+
+/-- `SwitchStatement::with_cursor` since repair fe4f921 (finding F60):
+    `switch_body_node.named_children(cursor).filter(|n| !n.is_extra()).enumerate()` -/
+def switchWithCursor (children : List ClauseKind) : Except SwitchParseError SwitchShape :=
+  clauseLoop (children.filter (· ≠ .extra)) 0 ⟨0, none⟩
+
+/-- the loop of seeded change C07/1: extras are skipped INSIDE the loop, after `enumerate()` counted them -/
+def clauseLoopCountingExtras : List ClauseKind → Nat → SwitchShape → Except SwitchParseError SwitchShape
+  | [], _, s => .ok s
+  | .case :: rest, i, s => clauseLoopCountingExtras rest (i + 1) { s with cases := s.cases + 1 }
+  | .default :: rest, i, s =>
+    if s.defaultPos.isSome then .error .multipleDefaultLabels
+    else clauseLoopCountingExtras rest (i + 1) { s with defaultPos := some i }
+  | .extra :: rest, i, s => clauseLoopCountingExtras rest (i + 1) s
+  | .other :: _, _, _ => .error .unexpectedNodeKind
+
+def switchWithCursorCountingExtras (children : List ClauseKind) : Except SwitchParseError SwitchShape :=
+  clauseLoopCountingExtras children 0 ⟨0, none⟩
+
+/-- `Vec::insert(index, x)` on a vector of length `len`: `none` = the panic
+    "insertion index (is {index}) should be <= len (is {len})"; otherwise the new length -/
+def vecInsertLen (len index : Nat) : Option Nat := if index ≤ len then some (len + 1) else none
+
+/-- `Vec::remove(index)`: `none` = the panic "removal index (is {index}) should be < len (is {len})" -/
+def vecRemoveLen (len index : Nat) : Option Nat := if index < len then some (len - 1) else none
+
+/-- `walk_stmt`, `Statement::Switch`: `body_statements` = one entry per case, then
+    `if let Some(d) = &x.default { body_statements.insert(d.position, &d.body) }`; result = its length -/
+def walkSwitchBodies (s : SwitchShape) : Option Nat :=
+  match s.defaultPos with
+  | none => some s.cases
+  | some p => vecInsertLen s.cases p
+
+/-- `visit_switch_statement`: `case_body_start_refs` has one entry per body (the visitor is only called when every
+    body was built); `default_pos.map(|p| case_body_start_refs.remove(p))`; result = remaining length -/
+def visitSwitchStarts (s : SwitchShape) : Option Nat :=
+  match s.defaultPos with
+  | none => some s.cases
+  | some p => vecRemoveLen (s.cases + 1) p
 
 end QV.Model.Totality
